@@ -218,7 +218,7 @@ TaskForKeyIface = Iface('TaskForKeyIface',
 CONTRACTS = [
     Contract(
         id='K1', target='taskchain.utils.clazz:repr_from_instantiation',
-        props={'C12': 'decisive', 'C02': 'supporting', 'C03': 'supporting'},
+        props={'C12': 'decisive', 'C02': 'supporting', 'C03': 'supporting', 'C01': 'supporting'},
         inputs={'obj': S(Dyn, 'obj')},
         callees={'taskchain.utils.clazz:repr_from_instantiation': ByContract(spec='enc'),
                  'taskchain.utils.clazz:isinstance': ByContract(spec='builtin_isinstance')},
@@ -227,14 +227,14 @@ CONTRACTS = [
     ),
     Contract(
         id='K4', target='taskchain.parameter:Parameter.value',
-        props={'C12': 'decisive', 'C02': 'supporting', 'C03': 'supporting'},
+        props={'C12': 'decisive', 'C02': 'supporting', 'C03': 'supporting', 'C01': 'supporting'},
         inputs={'self': ParamObj()}, native_gens=PARAM_GENS,
         ensures={'eq_spec': 'k4_eq_spec'}, may_raise=['TypeError'],
         canary='k4_canary',
     ),
     Contract(
         id='K2', target='taskchain.parameter:AbstractParameter.value_repr',
-        props={'C12': 'decisive', 'C02': 'supporting', 'C03': 'supporting'},
+        props={'C12': 'decisive', 'C02': 'supporting', 'C03': 'supporting', 'C01': 'supporting'},
         inputs={'self': ParamObj()}, native_gens=PARAM_GENS,
         callees={'taskchain.parameter:Parameter.value': ByContract(spec='param_value'),
                  'taskchain.utils.clazz:repr_from_instantiation': ByContract(spec='enc')},
@@ -243,7 +243,7 @@ CONTRACTS = [
     ),
     Contract(
         id='K3', target='taskchain.parameter:AbstractParameter.repr',
-        props={'C12': 'decisive', 'C02': 'supporting', 'C03': 'supporting'},
+        props={'C12': 'decisive', 'C02': 'supporting', 'C03': 'supporting', 'C01': 'supporting'},
         inputs={'self': ParamObj()}, native_gens=PARAM_GENS,
         callees={'taskchain.parameter:Parameter.value': ByContract(spec='param_value'),
                  'taskchain.parameter:AbstractParameter.value_repr': ByContract(spec='value_text')},
@@ -252,7 +252,7 @@ CONTRACTS = [
     ),
     Contract(
         id='K6', target='taskchain.parameter:ParameterRegistry.repr',
-        props={'C12': 'decisive', 'C02': 'supporting', 'C03': 'supporting'},
+        props={'C12': 'decisive', 'C02': 'supporting', 'C03': 'supporting', 'C01': 'supporting'},
         inputs={'self': Obj('taskchain.parameter:ParameterRegistry', _parameters=SymDict(Str, ParamEntry, 'params'))},
         callees={'taskchain.parameter:AbstractParameter.repr': ByContract(spec='k6_entry')},
         ensures={'eq_spec': 'k6_eq_spec'},
@@ -261,7 +261,7 @@ CONTRACTS = [
     ),
     Contract(
         id='K9', target='taskchain.chain:TaskParameterConfig.get_name_for_persistence',
-        props={'C12': 'decisive', 'C02': 'supporting', 'C03': 'supporting', 'C13': 'supporting', 'C01': 'supporting'},
+        props={'C12': 'decisive', 'C02': 'supporting', 'C03': 'supporting', 'C13': 'supporting', 'C01': 'supporting', 'C04': 'supporting'},
         inputs={'task': Abs(TaskForKeyIface, 'task'),
                 'self': Obj('taskchain.chain:TaskParameterConfig', input_tasks=SymDict(Str, Str, 'inputs'))},
         call=['self', 'task'],
@@ -361,7 +361,7 @@ def k8_post(self, original_task, input_tasks):
 CONTRACTS += [
     Contract(
         id='K8', target='taskchain.chain:TaskParameterConfig.__init__',
-        props={'C01': 'decisive', 'C02': 'supporting', 'C03': 'supporting', 'C09': 'decisive', 'C12': 'decisive', 'C13': 'supporting'},
+        props={'C01': 'decisive', 'C02': 'supporting', 'C03': 'supporting', 'C04': 'supporting', 'C09': 'decisive', 'C12': 'decisive', 'C13': 'supporting'},
         inputs={'self': Obj('taskchain.chain:TaskParameterConfig'), 'original_task': Abs(OrigTaskIface, 'original_task'),
                 'input_tasks': SymDict(Str, InTaskRec, 'input_tasks')},
         callees={'taskchain.chain:TaskParameterConfig.get_name_for_persistence': ByContract(spec='k8_key_of')},
